@@ -166,8 +166,11 @@ class TypeValueHead(CborArray):
     def do_dissect_payload(self, s):
         # Extract the second item as the payload
         s = s[0]
-        if not s:
+        if not s or self.guess_payload_class(s) is CborItem:
+            # an unknown type keeps its value as the item it is, a byte
+            # string value is not an encoded item to be decoded
             self.add_payload(CborItem(item=s))
+            return
         CborArray.do_dissect_payload(self, s)
 
     def default_payload_class(self, payload):
